@@ -138,6 +138,19 @@ func GenRune(r *rng.R) rune {
 }
 
 func GenStr(r *rng.R) string {
+	if r.Chance(1, 300) {
+		// a long string (longer than typical scratch buffers), mixing escapes and plain text
+		n := []int{64, 257, 1025, 4100}[r.Intn(4)]
+		var b strings.Builder
+		for b.Len() < n {
+			if r.Chance(1, 8) {
+				b.WriteString(StrPool[r.Intn(60)])
+			} else {
+				b.WriteString("lorem ipsum ")
+			}
+		}
+		return b.String()
+	}
 	switch r.Intn(10) {
 	case 0, 1, 2, 3:
 		return StrPool[r.Intn(len(StrPool))]
@@ -195,6 +208,8 @@ type Opts struct {
 	Root     Kind // List or Obj
 	// ScalarBias: 0..10, higher = more scalars / fewer containers per level
 	ScalarBias int
+	// Wide: now and then generate containers with tens to hundreds of elements
+	Wide bool
 }
 
 // GenTree builds a random tree rooted at a list or object.
@@ -228,6 +243,10 @@ func genContainer(r *rng.R, o Opts, k Kind, depth int) *Spec {
 		n = 1
 	default:
 		n = r.Range(0, o.MaxWidth)
+	}
+	if o.Wide && depth <= 2 && r.Chance(1, 40) {
+		// occasionally a wide container: sizes around the usual growth / bucket thresholds
+		n = []int{9, 17, 33, 65, 129, 300}[r.Intn(6)] + r.Intn(3) - 1
 	}
 	s := &Spec{K: k}
 	for i := 0; i < n; i++ {
